@@ -35,6 +35,18 @@ def run(ctx):
     # a non-integer hard limit well above .5 (12 * 1.05 = 12.6): the 13th datapoint does not fit
     r_ops, w_ops = cachesys.band_workload(ctx.rng, nstores=15)
     expl.append((dict(strategy=st, max=12, flow=True, lag=0, coarse=True), r_ops, w_ops, 0, ctx.pick(2, 8), 2))
+  # the limits themselves: what the daemon derives from carbon.conf at start-up (the real CarbonCacheOptions.postOptions in
+  # a child process) must be MAX_CACHE_SIZE, or 105 % of it under flow control (and 95 % for the low watermark)
+  from . import confsys
+  for mx, flow in ((3, False), (3, True), (20, True), (12, True), (100, False)) if ctx.quick else [(m, f) for m in (1, 2, 3, 6, 12, 20, 50, 1000) for f in (False, True)]:
+    got = confsys.derive(ctx.scratch, ['MAX_CACHE_SIZE = %d' % mx, 'USE_FLOW_CONTROL = %s' % flow])
+    ctx.evaluations += 1
+    want_hard = mx * 1.05 if flow else mx
+    if 'error' in got or got.get('MAX_CACHE_SIZE') != mx or abs(float(got['CACHE_SIZE_HARD_MAX']) - want_hard) > 1e-9 \
+       or abs(float(got['CACHE_SIZE_LOW_WATERMARK']) - mx * 0.95) > 1e-9 or bool(got['USE_FLOW_CONTROL']) != flow:
+      ctx.violation('the cache limits carbon-cache derives from carbon.conf (MAX_CACHE_SIZE = %d, USE_FLOW_CONTROL = %s) are not MAX_CACHE_SIZE / '
+                    '105 %% of it under flow control: %r' % (mx, flow, got), dict(MAX_CACHE_SIZE=mx, USE_FLOW_CONTROL=flow, derived=got),
+                    signature='derived-limits')
   # de-duplicate identical model configurations
   seen, m2 = set(), []
   for m in models:
